@@ -629,7 +629,9 @@ func (rn *runner) run(h *history, worker int, only *querySpec) {
 	r := c.Rand(uint64(9000 + h.Index))
 	dir := filepath.Join(c.Scratch, fmt.Sprintf("h%d", h.Index))
 	defer os.RemoveAll(dir)
-	extra := map[string][]string{"data": {`write-cold-duration = "1h"`}}
+	// automatic flush off: the keys live in [data.memtable] (defaults 5 s / 20 s); the
+	// harness must know the flush generation of every write
+	extra := map[string][]string{"data.memtable": {`write-cold-duration = "1h"`, `force-snapShot-duration = "1h"`}}
 	for _, cf := range configs {
 		if cf.Name == h.Config {
 			for k, v := range cf.Extra {
@@ -654,10 +656,31 @@ func (rn *runner) run(h *history, worker int, only *querySpec) {
 	disableBackground(s)
 	u := kit.NewUniverse(1, 5, 24)
 	unknown := 0
+	// files may change only at the flush / compact / merge steps the history asks for; a
+	// change seen elsewhere means the server flushed on its own and the harness no longer
+	// knows the flush generation of every write: the history is then judged as
+	// multi-generation
+	singleGen := h.SingleGen
+	files := tsspFiles(s)
+	selfFlushed := func() bool {
+		if cur := tsspFiles(s); cur != files {
+			files = cur
+			if singleGen {
+				singleGen = false
+				c.Inconclusive("server-flushed-on-its-own(history-judged-as-multi-generation)", 1)
+			}
+			return true
+		}
+		return false
+	}
 	for i := range h.Steps {
 		st := &h.Steps[i]
+		if st.Op != "write" && st.Op != "check" {
+			selfFlushed()
+		}
 		switch st.Op {
 		case "write":
+			selfFlushed()
 			wr := s.Write(db, model.LPBatch(st.pts), nil)
 			if !wr.Acked() {
 				c.Inconclusive("write-not-acknowledged", 1)
@@ -671,13 +694,18 @@ func (rn *runner) run(h *history, worker int, only *querySpec) {
 			}
 		case "flush":
 			_ = s.Flush()
+			files = tsspFiles(s)
 		case "compact-level":
 			_ = s.Compact("level")
+			files = tsspFiles(s)
 		case "compact-full":
 			_ = s.Compact("full")
+			files = tsspFiles(s)
 		case "merge":
 			_ = s.Merge()
+			files = tsspFiles(s)
 		case "check":
+			selfFlushed()
 			l := kit.ReadLayout(s, db)
 			c.Distinct("layout-vector", l.String())
 			for j, have := range []bool{l.ActiveMem, l.Ordered > 0, l.Unordered > 0, l.MaxLevel > 0} {
@@ -714,7 +742,10 @@ func (rn *runner) run(h *history, worker int, only *querySpec) {
 				if o.nrows > 0 {
 					c.Nontrivial(shape + "|" + l.String())
 				}
-				if !q.must(h.SingleGen) && only == nil {
+				if o.differs() && !q.must(false) {
+					selfFlushed() // the verdict below rests on the generation bookkeeping
+				}
+				if !q.must(singleGen) && only == nil {
 					c.Count("pairs-not-demanded-by-the-property(multi-generation,no-hint)", 1)
 					if o.differs() {
 						c.Count("pairs-not-demanded-that-differ", 1)
@@ -768,6 +799,15 @@ func (rn *runner) run(h *history, worker int, only *querySpec) {
 		q := genQuery(r, u.Times)
 		c.Sample(map[string]any{"history": h.Index, "config": h.Config, "single_generation": h.SingleGen, "ops": strings.Join(ops, " "), "a_query_pair": []string{q.aggText(), q.rawText()}})
 	}
+}
+
+// tsspFiles names the data files of the instance (ordered and out-of-order).
+func tsspFiles(s *proc.Server) string {
+	a, _ := filepath.Glob(s.DataDir() + "/data/" + db + "/*/*/*/tssp/*/*.tssp")
+	b, _ := filepath.Glob(s.DataDir() + "/data/" + db + "/*/*/*/tssp/*/out-of-order/*.tssp")
+	a = append(a, b...)
+	sort.Strings(a)
+	return strings.Join(a, "\n")
 }
 
 func firstFatal(s string) string {
